@@ -117,6 +117,13 @@ def check_case(arg):
                                 cls = "param/typ-drift"
                             elif cls.startswith("returns/"):
                                 cls = "returns-drift"
+                        elif cls.startswith(("param/default:", "returns/default:")):
+                            # what becomes of a default depends on whether the parser keeps or strips the announcer (the typed
+                            # re-extraction runs in one case only): part of the class, so that one does not hide the other
+                            cls += "/parser-keeps-announcer" if pedd else "/parser-strips-announcer"
+                            # ... and on whether the declared type is one of simple_types (only then the text is converted by type)
+                            decl = ((ir["params"].get(det.get("param")) or {}) if cls.startswith("param/") else ((ir.get("returns") or {}).get("return_type") or {})).get("typ")
+                            cls += "/simple-type" if decl in ("int", "float", "str", "bool", "complex") else "/other-type"
                         items.append(("C01/%s/%s" % (tag, cls), dict(det, docstring=src[:300], word_wrap=ww, parser_keeps_announcer=pedd)))
     return items, n, clean
 
